@@ -28,7 +28,11 @@ REQUIRED_COUNTERS = ['surplus_transfer', 'exhausted_pile_gt_candidate', 'shared_
                      'step_none', 'sens_accept_equal', 'sens_mandatory_quota', 'sens_eliminate_step', 'warmup_refusal',
                      'warmup_larger', 'warmup_other_n', 'warmup_big',
                      # no returned state may be changed by a later call
-                     'reexhaust_trace', 'reexhaust_nth', 'count_taken_twice', 'nth_snapshot_checked']
+                     'reexhaust_trace', 'reexhaust_nth', 'count_taken_twice', 'nth_snapshot_checked',
+                     # checklist items 10-12
+                     'three_elected_one_count', 'two_on_quota_exactly', 'two_on_quota_exactly_not_accepted', 'hare_3way_remainder2',
+                     'step2_tie_inside_eliminated', 'step2_tie_at_boundary', 'two_over_awarded', 'quota_below_one',
+                     'fewer_votes_than_seats', 'n_seats_zero', 'cross_selector_options', 'cross_distributor_options']
 RULE = ('(audited against harness/GENERATOR_CHECKLIST.md) ranked profiles over 1-6 candidates, 1-10 ballot types (truncated, shared ranks, empty ballots, zero-first-preference '
         'candidates), weights from a tie-forcing small set / Fractions / integers up to 10^20, n_seats 1..#candidates, Gregory and '
         'Hare(seed) transfer, quota droop / hare / hagenbach_bischoff / None, accept_quota_equal, mandatory_quota, eliminate_step '
@@ -53,6 +57,11 @@ UNPROVED = []
 # ------------------------------------------------------------------------------------------------
 # implementation side
 
+def _bad_clause(msg):
+    return ('float_in_exact_path' if msg.startswith('float in') else 'object_changed_in_place' if msg.startswith('aliasing')
+            else 'draw_contract')
+
+
 def _tag(case, *tags):
     ts = case.setdefault('_tags', [])
     for t in tags:
@@ -74,10 +83,12 @@ def _run_trace(case):
         except Exception as e:      # noqa
             init = {'err': err_name(e)}
     if selector:
-        res, counts, draws, bad, msg = record_run(case, lambda d, s: s.evaluate(votes, n))
+        res, counts, draws, bad, msg = record_run(case, lambda d, s: s.evaluate(votes, n), args={'votes': votes})
         result = res if isinstance(res, dict) else [NAMES.i(c) for c in res]
     else:
-        res, counts, draws, bad, msg = record_run(case, lambda d, s: d.evaluate(votes, n, prev_gains=dict(prev), max_seats=dict(maxs)))
+        pg, ms = dict(prev), dict(maxs)
+        res, counts, draws, bad, msg = record_run(case, lambda d, s: d.evaluate(votes, n, prev_gains=pg, max_seats=ms),
+                                                  args={'votes': votes, 'prev_gains': pg, 'max_seats': ms}, form='distributor')
         result = res if isinstance(res, dict) and 'err' in res else enc_seats(res)
     if counts:
         # the allocation the first count started from is the initial allocation of this very run (an unseeded Hare draws anew)
@@ -112,13 +123,16 @@ def _run_next(case):
 
     twice = not (case['method'] == 'hare' and case.get('transferer_form') == 'name')      # an unseeded Hare draws anew
 
+    pg, ms = dict(prev), dict(maxs)
+
     def call(d, s):
-        r1 = d.next_count(alloc, case['n'], total, prev_gains=dict(prev), max_seats=dict(maxs))
+        r1 = d.next_count(alloc, case['n'], total, prev_gains=pg, max_seats=ms)
         if twice:
             # the same count once more from the very same state object
-            d.next_count(alloc, case['n'], total, prev_gains=dict(prev), max_seats=dict(maxs))
+            d.next_count(alloc, case['n'], total, prev_gains=pg, max_seats=ms)
         return r1
-    res, counts, draws, bad, msg = record_run(case, call)
+    res, counts, draws, bad, msg = record_run(case, call, args={'allocation': alloc, 'prev_gains': pg, 'max_seats': ms},
+                                              form='distributor')
     if isinstance(res, dict) and 'err' in res:
         return {'err': res['err'], '_draws': draws, '_bad_draws': bad, '_msg': msg, '_detail': counts}
     rec = counts[0]
@@ -142,10 +156,12 @@ def _run_nth(case):
     n, k = case['n'], case['k']
     selector = case.get('form', 'selector') == 'selector'
     if selector:
-        res, counts, draws, bad, msg = record_run(case, lambda d, s: s.nth_count(votes, n, k))
+        res, counts, draws, bad, msg = record_run(case, lambda d, s: s.nth_count(votes, n, k), args={'votes': votes})
     else:
+        pg, ms = seats_dict(case.get('prev')), seats_dict(case.get('max'))
         res, counts, draws, bad, msg = record_run(
-            case, lambda d, s: d.nth_count(votes, n, k, prev_gains=seats_dict(case.get('prev')), max_seats=seats_dict(case.get('max'))))
+            case, lambda d, s: d.nth_count(votes, n, k, prev_gains=pg, max_seats=ms),
+            args={'votes': votes, 'prev_gains': pg, 'max_seats': ms}, form='distributor')
     if isinstance(res, dict) and 'err' in res:
         return {'err': res['err'], '_draws': draws, '_bad_draws': bad, '_detail': counts}
     totals, seats = res
@@ -234,6 +250,30 @@ def _retag_trace(case, obs):
         _tag(case, 'warmup_' + case.get('_warm_kind', 'x'))
     if _grows_existing_exhausted(obs['_detail']):
         _tag(case, 'reexhaust_trace')
+    if case['n'] == 0:
+        _tag(case, 'n_seats_zero')
+    if case['votes'] and 0 < sum(Fraction(w) for _, w in case['votes']) < case['n']:
+        _tag(case, 'fewer_votes_than_seats')
+    if any(d.get('c') is not None and d.get('_k', 0) >= 3 and Fraction(d.get('_n', '0')) >= 2 for d in obs.get('_draws') or []):
+        _tag(case, 'hare_3way_remainder2')
+    for rec in obs['_detail']:
+        if 'err' in rec or rec['shortcut']:
+            continue
+        qv = Fraction(rec['quota']) if rec.get('quota') is not None else None
+        tin = _totals(rec['alloc_in'])
+        if qv is not None and 0 < qv < 1:
+            _tag(case, 'quota_below_one')
+        if len(rec['elected']) >= 3:
+            _tag(case, 'three_elected_one_count')
+        if qv is not None and sum(1 for c, k in rec['elected'] if tin.get(c) == k * qv) >= 2:
+            _tag(case, 'two_on_quota_exactly')
+        if qv is not None and qv > 0 and rec['elected']:
+            n_rem = case['n'] - sum(k for _, k in rec['prev'])
+            if sum(1 for h, t in tin.items() if h is not None and t >= qv) - n_rem >= 2 and n_rem >= 1:
+                _tag(case, 'two_over_awarded')
+        if case.get('step', -1) == -2 and not rec['elected'] and len(rec['eliminated']) == 2 \
+                and tin.get(rec['eliminated'][0]) == tin.get(rec['eliminated'][1]):
+            _tag(case, 'step2_tie_inside_eliminated')
     if case.get('form', 'selector') != 'selector' and any(c not in profile_cands(case['votes']) for c, _ in case.get('prev') or []):
         _tag(case, 'prev_absent_party')
     times = {}
@@ -341,7 +381,9 @@ def _check_count(case, a_in, prev, rec, out, where):
         retained = [c for c in cont if c not in removed]
         ok = len(removed) == want and all(tot[x] <= tot[y] for x in removed for y in retained)
         if not ok:
-            out.append(('elimination_not_lowest',
+            # the defect repaired by b992cbb had its own precondition: the exhausted pile outranks a continuing candidate
+            outranks = None in tot and any(tot[None] >= t for h, t in tot.items() if h is not None)
+            out.append(('elimination_not_lowest_exhausted_pile_outranks' if outranks else 'elimination_not_lowest',
                         f'{where}: eliminated {removed} from totals { {k: str(v) for k, v in tot.items()} }, '
                         f'configured number {want}'))
 
@@ -397,7 +439,7 @@ def _grows_existing_exhausted(detail):
 def _oracle_trace(case, obs):
     out = []
     if obs['_bad_draws']:
-        out.append(('float_in_exact_path' if obs['_bad_draws'][0].startswith('float in') else 'draw_contract', obs['_bad_draws'][0]))
+        out.append((_bad_clause(obs['_bad_draws'][0]), obs['_bad_draws'][0]))
     _mutation_clauses(obs, out)
     res = obs['result']
     overshoot = _overshoot(case, obs['_detail'])
@@ -471,7 +513,7 @@ def _oracle_trace(case, obs):
 def _oracle_next(case, obs):
     out = []
     if obs.get('_bad_draws'):
-        out.append(('float_in_exact_path' if obs['_bad_draws'][0].startswith('float in') else 'draw_contract', obs['_bad_draws'][0]))
+        out.append((_bad_clause(obs['_bad_draws'][0]), obs['_bad_draws'][0]))
     _mutation_clauses(obs, out)
     if 'err' in obs:
         if obs['err'] not in (_allowed_errors(case) - {'VotingSystemError'}):
@@ -492,7 +534,7 @@ def oracle(case, obs):
         return _oracle_next(case, obs)
     out = []
     if obs.get('_bad_draws'):
-        out.append(('float_in_exact_path' if obs['_bad_draws'][0].startswith('float in') else 'draw_contract', obs['_bad_draws'][0]))
+        out.append((_bad_clause(obs['_bad_draws'][0]), obs['_bad_draws'][0]))
     if ('err' in obs and obs['err'] not in _allowed_errors(case)
             and not _overshoot(case, obs.get('_detail', []))):
         out.append(('unexpected_error', obs['err']))
@@ -656,7 +698,7 @@ def _trace_case(rng, tags=(), **kw):
     first_from = kw.pop('first_from', None)
     votes = kw.pop('votes', None) or rand_profile(rng, m, rng.randint(1, 10), shared_p, weights, fractions, first_from=first_from)
     cands = profile_cands(votes)
-    n = kw.pop('n', None) or rng.randint(1, max(1, len(cands)))
+    n = kw.pop('n') if kw.get('n') is not None else (kw.pop('n', None) or rng.randint(1, max(1, len(cands))))
     case = {'op': 'stv_trace', 'votes': votes, 'n': n, 'form': kw.pop('form', 'selector'), '_tags': list(tags)}
     case.update(cfg)
     if case['form'] == 'distributor':
@@ -856,6 +898,12 @@ def _audit_directed(rng):
             c.update({'op': 'stv_nth', 'k': k})
             yield c
     yield _state_case(rng, ['directed'], big_exhausted=True, method='gregory', quota='droop', mandatory=False, step=-1)
+    # 10. multiplicity of the rare events; 11. every argument crossed with every option
+    for votes, n, opts, tags in multiplicity_cases(rng):
+        kw = dict(base)
+        kw.update(opts)
+        keep = [t for t in tags if t in ('two_on_quota_exactly_not_accepted', 'step2_tie_at_boundary')]
+        yield _trace_case(rng, ['directed'] + keep, votes=votes, n=n, **kw)
     # 6. state between calls: the same object counts another election first
     for kind in ('refusal', 'larger', 'other_n', 'big'):
         c = _trace_case(rng, ['directed'], m=4, shared_p=0.15, **base)
@@ -878,6 +926,11 @@ def generate(rng, tier):
         yield c
     for _ in range(12 if tier == 'quick' else 60):      # each directed shape at least a dozen times per run (checklist item 9)
         yield from _audit_directed(rng)
+    for _ in range(2 if tier == 'quick' else 10):
+        for votes, n, opts in cross_option_cases(rng):
+            form = opts.pop('form')
+            extra = {k: opts.pop(k) for k in ('max', 'prev') if k in opts}
+            yield _trace_case(rng, ['directed', 'cross_' + form + '_options'], votes=votes, n=n, form=form, step=-1, **opts, **extra)
     N = 2500 if tier == "quick" else 40000
     for _ in range(N):
         r = rng.random()
